@@ -59,7 +59,7 @@ func (pass *AnonymousStructsToNamed) processObject(object ast.Object) ast.Object
 	pkg := object.SelfRef.ReferredPkg
 	parentName := tools.UpperCamelCase(pkg) + tools.UpperCamelCase(object.Name)
 
-	if object.Type.IsAnyOf(ast.KindArray, ast.KindMap, ast.KindDisjunction) {
+	if object.Type.IsAnyOf(ast.KindArray, ast.KindMap, ast.KindDisjunction, ast.KindIntersection) {
 		newObject.Type = pass.processType(pkg, parentName, object.Type)
 	}
 
@@ -86,6 +86,10 @@ func (pass *AnonymousStructsToNamed) processType(pkg string, parentName string, 
 		return pass.processDisjunction(pkg, parentName, def)
 	}
 
+	if def.IsIntersection() {
+		return pass.processIntersection(pkg, parentName, def)
+	}
+
 	if def.IsStruct() {
 		return pass.processStruct(pkg, parentName, def)
 	}
@@ -109,6 +113,20 @@ func (pass *AnonymousStructsToNamed) processMap(pkg string, parentName string, d
 func (pass *AnonymousStructsToNamed) processDisjunction(pkg string, parentName string, def ast.Type) ast.Type {
 	for i, branch := range def.Disjunction.Branches {
 		def.Disjunction.Branches[i] = pass.processType(pkg, parentName, branch)
+	}
+
+	return def
+}
+
+func (pass *AnonymousStructsToNamed) processIntersection(pkg string, parentName string, def ast.Type) ast.Type {
+	for i, branch := range def.Intersection.Branches {
+		// the structs directly listed in an intersection hold its own fields:
+		// they are left where they are.
+		if branch.IsStruct() {
+			continue
+		}
+
+		def.Intersection.Branches[i] = pass.processType(pkg, parentName, branch)
 	}
 
 	return def
